@@ -14,7 +14,9 @@ Sets == [
   B |-> << <<"f","r">>, <<"f","r","DASH","F","R">>, <<"f","r","DASH","C","A">> >>,
   C |-> << <<"a","r">>, <<"h","e">>, <<"f","a">>, <<"u","r">>, <<"e","n">> >>,
   D |-> << <<"z","h","DASH","H","a","n","s">>, <<"z","h","DASH","H","a","n","t","DASH","T","W">>, <<"j","a">> >>,
-  E |-> << <<"d","e">> >> ]
+  E |-> << <<"d","e">> >>,
+  \* names that are valid tags but not canonically cased: the configured NAME is what every string form must show
+  F |-> << <<"e","n">>, <<"e","n","DASH","u","s">>, <<"p","t","DASH","b","r">>, <<"z","h","DASH","h","a","n","t">> >> ]
 
 Lower == [A |-> "a", B |-> "b", C |-> "c", D |-> "d", E |-> "e", F |-> "f", G |-> "g", H |-> "h", I |-> "i", J |-> "j", K |-> "k", L |-> "l", M |-> "m",
           N |-> "n", O |-> "o", P |-> "p", Q |-> "q", R |-> "r", S |-> "s", T |-> "t", U |-> "u", V |-> "v", W |-> "w", X |-> "x", Y |-> "y", Z |-> "z"]
